@@ -583,6 +583,11 @@ func (fb *fnBounds) inferPhiInvariants() {
 							addOther(l, describeIdx(c))
 						}
 					}
+				case *ssa.UnOp:
+					// the length of a string/slice loaded from memory before the join
+					if c.Op == token.MUL && (isStringType(c.Type()) || kindOf(c.Type()) == KSlice) {
+						addOther(fb.lenOf(c, c, 0), "len("+describe(c)+")")
+					}
 				}
 			}
 		}
